@@ -13,8 +13,18 @@
 #include "ola/rdm/UID.h"
 #define private public
 #include "ola/rdm/PidStore.h"
+#include "common/rdm/PidStoreLoader.h"
+#include "ola/messaging/Message.h"
+#include "ola/rdm/MessageSerializer.h"
 #undef private
+#include "ola/rdm/RDMCommandSerializer.h"
 #include "ola/Logging.h"
+#include <dirent.h>
+#include <fstream>
+#include <algorithm>
+#include <google/protobuf/io/zero_copy_stream_impl.h>
+#include <google/protobuf/text_format.h>
+#include "common/rdm/Pids.pb.h"
 #include "c14_desc.h"
 
 using ola::rdm::PidDescriptor;
@@ -29,6 +39,73 @@ static string name_bytes(const string &s) {
   for (size_t i = 0; i < s.size(); i++) o << (i ? ";" : "") << static_cast<unsigned>(static_cast<uint8_t>(s[i]));
   o << "]";
   return o.str();
+}
+
+// ---- the data files as the real protobuf text parser reads them, printed as a Gallina AST ----
+static void print_field(std::ostringstream *o, const ola::rdm::pid::Field &f) {
+  *o << "PF " << static_cast<int>(f.type()) << " ";
+  if (f.has_min_size()) *o << "(Some " << f.min_size() << ") "; else *o << "None ";
+  if (f.has_max_size()) *o << "(Some " << f.max_size() << ") "; else *o << "None ";
+  *o << "[";
+  for (int i = 0; i < f.field_size(); i++) { if (i) *o << "; "; print_field(o, f.field(i)); }
+  *o << "]";
+}
+static void print_frame(std::ostringstream *o, bool has, const ola::rdm::pid::FrameFormat &fr) {
+  if (!has) { *o << "None"; return; }
+  *o << "Some [";
+  for (int i = 0; i < fr.field_size(); i++) { if (i) *o << "; "; print_field(o, fr.field(i)); }
+  *o << "]";
+}
+template <typename T>
+static void print_block(std::ostringstream *o, const T &blk) {
+  *o << "[";
+  for (int i = 0; i < blk.pid_size(); i++) {
+    const ola::rdm::pid::Pid &p = blk.pid(i);
+    *o << (i ? ";\n    " : "\n    ") << "(" << name_bytes(p.name()) << ", " << p.value() << ", [";
+    print_frame(o, p.has_get_request(), p.get_request()); *o << "; ";
+    print_frame(o, p.has_get_response(), p.get_response()); *o << "; ";
+    print_frame(o, p.has_set_request(), p.set_request()); *o << "; ";
+    print_frame(o, p.has_set_response(), p.set_response()); *o << "])";
+  }
+  *o << "]";
+}
+// merges the PID files of the directory exactly as PidStoreLoader::LoadFromDirectory does
+static bool print_proto(const char *dir, FILE *v) {
+  std::vector<string> files;
+  DIR *dp = opendir(dir);
+  if (!dp) return false;
+  while (struct dirent *e = readdir(dp)) {
+    string n = e->d_name;
+    if (n.size() > 6 && n.substr(n.size() - 6) == ".proto" && n != "overrides.proto" &&
+        n != "manufacturer_names.proto")
+      files.push_back(string(dir) + "/" + n);
+  }
+  closedir(dp);
+  std::sort(files.begin(), files.end());
+  ola::rdm::pid::PidStore pb;
+  for (size_t i = 0; i < files.size(); i++) {
+    std::ifstream in(files[i].c_str());
+    google::protobuf::io::IstreamInputStream is(&in);
+    if (!google::protobuf::TextFormat::Merge(&is, &pb)) return false;
+  }
+  std::ostringstream o;
+  o << "Definition shipped_proto : pstore :=\n  (";
+  print_block(&o, pb);
+  o << ",\n   [";
+  for (int m = 0; m < pb.manufacturer_size(); m++) {
+    o << (m ? ";\n    " : "") << "(" << pb.manufacturer(m).manufacturer_id() << ", ";
+    print_block(&o, pb.manufacturer(m));
+    o << ")";
+  }
+  o << "]).\n";
+  fprintf(v, "(* the PID files of data/rdm merged by the real protobuf text parser (what LoadFromProto gets) *)\n%s",
+          o.str().c_str());
+  fprintf(v, "Definition FIELD_TYPE_CODES : list N := [%d; %d; %d; %d; %d; %d; %d; %d; %d; %d; %d; %d; %d; %d; %d].\n",
+          ola::rdm::pid::BOOL, ola::rdm::pid::UINT8, ola::rdm::pid::UINT16, ola::rdm::pid::UINT32,
+          ola::rdm::pid::STRING, ola::rdm::pid::GROUP, ola::rdm::pid::INT8, ola::rdm::pid::INT16,
+          ola::rdm::pid::INT32, ola::rdm::pid::IPV4, ola::rdm::pid::UID, ola::rdm::pid::MAC,
+          ola::rdm::pid::IPV6, ola::rdm::pid::UINT64, ola::rdm::pid::INT64);
+  return true;
 }
 
 int main(int argc, char **argv) {
@@ -51,7 +128,7 @@ int main(int argc, char **argv) {
 
   fprintf(v, "(* REGENERATED on every run by props/C14/exporter.cpp from the PID store that the real\n"
              "   RootPidStore::LoadFromDirectory builds from data/rdm. Do not edit. *)\n"
-             "From Coq Require Import List NArith ZArith.\nFrom C14 Require Import Model.\n"
+             "From Coq Require Import List NArith ZArith.\nFrom C14 Require Import Model Loader.\n"
              "Import ListNotations.\nLocal Open Scope N_scope.\n\n");
   std::ostringstream all, pids;
   unsigned n_desc = 0, n_pid = 0;
@@ -81,6 +158,22 @@ int main(int argc, char **argv) {
              "Definition all : list ((N * N * N) * list fd) := [\n%s\n].\n\n", all.str().c_str());
   fprintf(v, "(* every PidDescriptor of every store: (manufacturer id, PID value, name as bytes) *)\n"
              "Definition pids : list (N * N * list N) := [\n%s\n].\n\n", pids.str().c_str());
+  // constants the model / theorems mention
+  fprintf(v, "Definition ESTA_MANUFACTURER_ID : N := %u.\nDefinition MANUFACTURER_PID_MIN : N := %u.\n"
+             "Definition MANUFACTURER_PID_MAX : N := %u.\nDefinition UNLIMITED_BLOCKS : Z := (%d)%%Z.\n"
+             "Definition INITIAL_BUFFER_SIZE : N := %u.\nDefinition MAX_PARAM_DATA_LENGTH : N := %u.\n"
+             "Definition SIZE_IPV4 : N := %u.\nDefinition SIZE_IPV6 : N := %u.\nDefinition SIZE_MAC : N := %u.\n"
+             "Definition SIZE_UID : N := %u.\n",
+          static_cast<unsigned>(ola::rdm::PidStoreLoader::ESTA_MANUFACTURER_ID),
+          static_cast<unsigned>(ola::rdm::PidStoreLoader::MANUFACTURER_PID_MIN),
+          static_cast<unsigned>(ola::rdm::PidStoreLoader::MANUFACTURER_PID_MAX),
+          static_cast<int>(ola::messaging::FieldDescriptorGroup::UNLIMITED_BLOCKS),
+          static_cast<unsigned>(ola::rdm::MessageSerializer::INITIAL_BUFFER_SIZE),
+          static_cast<unsigned>(ola::rdm::RDMCommandSerializer::MAX_PARAM_DATA_LENGTH),
+          static_cast<unsigned>(ola::network::IPV4Address::LENGTH),
+          static_cast<unsigned>(ola::network::IPV6Address::LENGTH),
+          static_cast<unsigned>(ola::network::MACAddress::LENGTH),
+          static_cast<unsigned>(ola::rdm::UID::LENGTH));
   fprintf(v, "Definition n_descriptors : N := %u.\nDefinition n_pids : N := %u.\n", n_desc, n_pid);
   // per store: number of descriptors by value and by name (the two indexes of PidStore)
   fprintf(v, "Definition store_index_sizes : list (N * N * N) := [");
@@ -93,6 +186,10 @@ int main(int argc, char **argv) {
     first = false;
   }
   fprintf(v, "].\n");
+  if (!print_proto(argv[1], v)) {
+    fprintf(stderr, "LOAD-FAILED: the data files do not parse as protobuf text\n");
+    return 5;
+  }
   fclose(v);
   fclose(tsv);
   return 0;
